@@ -4,7 +4,7 @@
    the objective along the implementation's iterates; exact PSD certificate
    of I - alpha A^T A; KKT residuals. *)
 From Coq Require Import QArith Qcanon ZArith List.
-From PV Require Import Dict Vec Dot Mat QcInst GaussQc Check OrdLemmas Thresh ISTA PSD.
+From PV Require Import Dict Vec Dot Mat QcInst GaussQc Check OrdLemmas Thresh ISTA PSD ISTAComplex.
 Import ListNotations.
 Local Open Scope Qc_scope.
 
@@ -151,7 +151,10 @@ Definition checkKktR (c : KktR) : list nat :=
     (if kkt_okR (kr_n c) (kr_A c) (kr_y c) (kr_eps c) (kr_xf c) then [] else [6%nat]) ++
     (if close tol6 (F (kr_xf c)) (F (kr_xi c)) then [] else [7%nat]) end).
 
-(* ------------------------------------------------ ISTA, complex (one-step) *)
+Fixpoint all2' {A B} (f : A -> B -> bool) (u : list A) (v : list B) : bool :=
+  match u, v with [], [] => true | a :: u', b :: v' => f a b && all2' f u' v' | _, _ => false end.
+
+(* ------------------------------------------------ ISTA, complex *)
 Definition gmod (z : G) : Qc := qsqrt (fst z * fst z + snd z * snd z).
 Definition gscale (a : Qc) (z : G) : G := (a * fst z, a * snd z).
 Definition gradC (n : nat) (A : list (list G)) (y x : list G) : list G :=
@@ -162,14 +165,23 @@ Definition stepC (n : nat) (A : list (list G)) (y : list G) (alpha eps : Qc) (z 
 Definition objC (A : list (list G)) (y : list G) (eps : Qc) (x : list G) : Qc :=
   fold_right Qcplus 0 (map (fun r => fst r * fst r + snd r * snd r) (vsub GR y (mv GR A x)))
   + eps * fold_right Qcplus 0 (map gmod x).
-(* real embedding [[Re, -Im], [Im, Re]] *)
-Definition emb (A : list (list G)) : list (list Qc) :=
-  map (fun r => map fst r ++ map (fun z => - snd z) r) A ++ map (fun r => map snd r ++ map fst r) A.
-(* one-step pairs (z_k, x_{k+1}) : x_{k+1} must be stepC z_k; [its] = x_0 :: x_1 :: ... for the objective.
-   codes as for IstaR; 5 = KKT at the converged ISTA result, 7 = FISTA objective differs *)
+(* The PROVED complex model (Solvers/ISTAComplex.v: pre, step_c, run_c, obj_c, emb) instantiated at Qc.
+   The moduli are SUPPLIED by the harness (numpy abs of the vector the implementation thresholds / of its
+   iterates) as exact rationals and CHECKED here:  m >= 0 and |m^2 - (re^2+im^2)| <= 1e-12 (1 + re^2+im^2)
+   (floats: ~1e-16 relative), which is the hypothesis [moduli] of C13_ista_c_descent up to that tolerance. *)
+Definition tolm : Qc := tol12.
+Definition modok (a : G) (m : Qc) : bool :=
+  let s := fst a * fst a + snd a * snd a in Qcleb 0 m && Qcleb (Qcabs' (m * m - s)) (tolm * (1 + s)).
+Definition modsok (v : list G) (ms : list Qc) : bool := all2' modok v ms.
+(* [ic_pairs] = (z_k, moduli of pre z_k, x_{k+1}) for every iteration (z_k = x_k for ISTA, extrapolated for FISTA);
+   [ic_its] = (x_k, |x_k|) for k = 0.. (objective); [ic_traj] leading iterates compared with the model RUN
+   from x_0 using the moduli of the first pairs (ISTA only).
+   codes: 1 one-step mismatch, 2 objective increases (ISTA), 3 Hermitian step-size certificate fails,
+   4 sizes, 5 KKT at the converged ISTA result, 7 FISTA objective differs, 8 run prefix differs,
+   9 a supplied modulus fails its check *)
 Record IstaC := { ic_id : nat; ic_n : nat; ic_mode : nat; ic_A : list (list G); ic_y : list G;
-  ic_alpha : Qc; ic_alphac : Qc; ic_eps : Qc; ic_pairs : list (list G * list G); ic_its : list (list G);
-  ic_xi : list G; ic_xf : list G }.
+  ic_alpha : Qc; ic_alphac : Qc; ic_eps : Qc; ic_pairs : list (list G * list Qc * list G);
+  ic_its : list (list G * list Qc); ic_traj : nat; ic_xi : list G; ic_xf : list G }.
 Definition kkt_okC (n : nat) (A : list (list G)) (y : list G) (eps : Qc) (x : list G) : bool :=
   let g := gradC n A y x in
   let tk := tol6 * (1 + eps) in
@@ -180,13 +192,24 @@ Definition kkt_okC (n : nat) (A : list (list G)) (y : list G) (eps : Qc) (x : li
                           Qcleb (gmod (gsub (gscale m gi) (gscale (eps * h2) xi))) (tk * m)) x g.
 Definition checkIstaC (c : IstaC) : list nat :=
   let n := ic_n c in let A := ic_A c in let y := ic_y c in
-  (if forallb (fun p => gvclose tol9 (snd p) (stepC n A y (ic_alpha c) (ic_eps c) (fst p))) (ic_pairs c) then [] else [1%nat]) ++
+  let al := ic_alpha c in let eps := ic_eps c in
+  let x0 := match ic_its c with p :: _ => fst p | [] => [] end in
+  let k := ic_traj c in
+  (if forallb (fun p => let '(z, mu, xn) := p in gvclose tol9 xn (step_c QcO n A y al eps z mu)) (ic_pairs c)
+   then [] else [1%nat]) ++
   (match ic_mode c with
-   | O => if mono (map (objC A y (ic_eps c)) (ic_its c)) then [] else [2%nat]
+   | O => if mono (map (fun p => obj_c QcO A y eps (fst p) (snd p)) (ic_its c)) then [] else [2%nat]
    | _ => [] end) ++
-  (if premise_ok (2 * n)%nat (emb A) (ic_alphac c) then [] else [3%nat]) ++
-  (if wfMb n (length y) A && forallb (fun v => Nat.eqb (length v) n) (ic_its c) then [] else [4%nat]) ++
+  (if premise_ok (n + n)%nat (ISTAComplex.emb QcO A) (ic_alphac c) then [] else [3%nat]) ++
+  (if wfMb n (length y) A && forallb (fun p => Nat.eqb (length (fst p)) n) (ic_its c) then [] else [4%nat]) ++
   (match ic_xi c with [] => [] | _ =>
-    (if kkt_okC n A y (ic_eps c) (ic_xi c) then [] else [5%nat]) ++
+    (if kkt_okC n A y eps (ic_xi c) then [] else [5%nat]) ++
     (match ic_xf c with [] => [] | _ =>
-       if close tol6 (objC A y (ic_eps c) (ic_xf c)) (objC A y (ic_eps c) (ic_xi c)) then [] else [7%nat] end) end).
+       if close tol6 (objC A y eps (ic_xf c)) (objC A y eps (ic_xi c)) then [] else [7%nat] end) end) ++
+  (match ic_mode c with
+   | O => let mus := map (fun p => snd (fst p)) (firstn k (ic_pairs c)) in
+          if all2 (gvclose tol9) (map (fun p => snd p) (firstn k (ic_pairs c))) (map fst (run_c QcO n mus A y al eps x0))
+          then [] else [8%nat]
+   | _ => [] end) ++
+  (if forallb (fun p => let '(z, mu, _) := p in modsok (pre QcO n A y al z) mu) (ic_pairs c)
+      && forallb (fun p => modsok (fst p) (snd p)) (ic_its c) then [] else [9%nat]).
